@@ -205,8 +205,10 @@ where
             let mut msm = MSMKZG::init();
             let eval_point_opt = if com_data.commitment.is_chopped() {
                 // When the commitment is in chopped form, we require that it be evaluated
-                // in a single point.
-                debug_assert!(com_data.point_indices.len() == 1);
+                // in a single point (the pieces are recombined with powers of that point).
+                if com_data.point_indices.len() != 1 {
+                    return Err(Error::OpeningError);
+                }
                 // (`point_indices` holds global point indices, whereas a point set is indexed by
                 // position: the single point of this commitment is the only one of its set.)
                 Some(point_sets[com_data.set_index][0])
